@@ -127,6 +127,12 @@ public:
     auto deadline = Clock::now() + delay;
 
     std::lock_guard lock(_wheelMutex);
+    // Re-check under the lock: drain() may have emptied the wheel between the
+    // lock-free test above and here; an entry inserted now would never fire.
+    if (!_accepting.load(std::memory_order_acquire))
+    {
+      return InvalidTimerId;
+    }
     auto* entry = allocEntry(); // alloc under _wheelMutex to prevent ABBA with _poolMutex
     entry->id = id;
     entry->callback = std::move(callback);
